@@ -581,6 +581,13 @@ static struct gslot *g_find(void *p)
 			return s;
 	v_broken("g_find: pointer not in arena");
 }
+int g_owns(void *p)
+{
+	for (struct gslot *s = g_used; s; s = s->next)
+		if ((uint8_t *)p >= s->base + BAND && (uint8_t *)p <= s->base + BAND + s->pages * PG)
+			return 1;
+	return 0;
+}
 void g_revoke(void *p)
 {
 	struct gslot *s = g_find(p);
